@@ -606,7 +606,7 @@ fn check() {
     samples.push(json!({"rules_json": bodies[bodies.len() / 3].0}));
 
     let n = cases.load(Ordering::Relaxed);
-    if n < 2000 || outcomes.len() < 15 || accepted.load(Ordering::Relaxed) < 10 {
+    if chk.violation_count() == 0 && (n < 2000 || outcomes.len() < 15 || accepted.load(Ordering::Relaxed) < 10) {
         machinery(format!("vacuous: cases={n} outcomes={} accepted={}", outcomes.len(), accepted.load(Ordering::Relaxed)));
     }
     let coverage = json!({
